@@ -94,6 +94,8 @@ private:
 
     wait_context& m_wait_context;
     sum_node_type* m_parent = nullptr;
+    //! True once finish_construction() has built m_range
+    bool m_range_constructed = false;
 public:
     small_object_allocator m_allocator;
     final_sum( Body& body, wait_context& w_o, small_object_allocator& alloc ) :
@@ -107,12 +109,14 @@ public:
     }
 
     ~final_sum() {
-        m_range.begin()->~Range();
+        if (m_range_constructed)
+            m_range.begin()->~Range();
     }
     void finish_construction( sum_node_type* parent, const Range& range, Body* stuff_last ) {
         __TBB_ASSERT( m_parent == nullptr, nullptr );
         m_parent = parent;
         new( m_range.begin() ) Range(range);
+        m_range_constructed = true;
         m_stuff_last = stuff_last;
     }
 private:
